@@ -37,6 +37,15 @@ BUILT = {
  "C12": ("server", "stateful property-based testing against an interval (lower/upper) reference model of the in-flight count",
          "Bursts, cancel-then-request before one poll, completions in any order, sink blocked; admitted only if lower<L, refused only if upper>=L, refusal = exactly one WouldBlock response and no handler.",
          "Finding F6 region steered around and counted.", "DESIGN.md §5 C12"),
+ "C13": ("listener", "stateful property-based testing of the real MaxChannelsPerKey filter against an exact model of live channels per key",
+         "Arrival/close/poll sequences over 3 keys and n in 1..3 with a close and a same-key arrival pending at one poll; every poll's yield/shed decision is compared with the model.",
+         "Channels are real BaseChannels over an inert transport; TrackedChannel drop = close.", "DESIGN.md §5 C13"),
+ "C19": ("hooks", "property-based differential testing: generated hook specs run through tarpc's combinators versus a reference interpreter",
+         "Arbitrary nesting of before / before-list / after / before-and-after layers with failing hooks, context shifts and result rewrites; exact event log and result compared.",
+         "Intermediate Serve values are type-erased behind a boxed adapter; what a plain After sees of the context is not compared.", "DESIGN.md §5 C19"),
+ "C20": ("stubs", "property-based testing of the stub combinators with invariant oracles, plus a real-threads run for the round-robin cursor",
+         "Round-robin balance after every call (sequential, concurrently created futures polled in generated order, and 8-16 real threads), consistent-hash determinism/validity under generated hashers, retry protocol against a scripted backend.",
+         "Real-thread run checks the visible effect only (no memory-model exploration).", "DESIGN.md §5 C20"),
  "C01": ("client", "stateful property-based testing (proptest op sequences over the real client dispatch under an owned scheduler) against a wire reference model",
          "Generated call/reply/abandon/expire histories and schedules; a model of the wire decides which payload each call may return. Exploration, not proof: bounded scenario length, poll-granularity schedules.",
          "Trusts the scripted transport and executor of the harness; virtual time via clock_gettime interposition.", "DESIGN.md §5 C01"),
@@ -69,6 +78,9 @@ m = {
  },
  "engines": [
    {"name": "client", "path": "harness/src/engines/client.rs", "serves_properties": [p for p in BUILT if BUILT[p][0]=="client"], "kind_free_text": "real tarpc client dispatch + handles + caller tasks over a scripted transport, owned scheduler, virtual time"},
+   {"name": "listener", "path": "harness/src/props/c13.rs", "serves_properties": ["C13"], "kind_free_text": "real Incoming::max_channels_per_key over a scripted listener"},
+   {"name": "hooks", "path": "harness/src/props/c19.rs", "serves_properties": ["C19"], "kind_free_text": "tarpc request-hook combinators vs reference interpreter"},
+   {"name": "stubs", "path": "harness/src/props/c20.rs", "serves_properties": ["C20"], "kind_free_text": "RoundRobin / ConsistentHash / Retry stubs with counting and scripted backends"},
    {"name": "server", "path": "harness/src/engines/server.rs", "serves_properties": [p for p in BUILT if BUILT[p][0]=="server"] + ["C09","C10","C11","C14"], "kind_free_text": "real BaseChannel / MaxRequests / Requests / execute() over a scripted transport with scripted handlers; environment plays the client"},
  ],
  "checks": checks,
